@@ -431,13 +431,14 @@ class StructureSimilarity(object):
 
                 key = (chainID, resSeq, resName)
 
-                if key not in residue_xyz.keys():
-                    residue_xyz[key] = []
-                    residue_name[key] = []
-
                 # if name in ['CA','C','N','O']
                 # exclude Hydrogen
+                # (a residue without any heavy atom can not make a contact:
+                # it is treated like a residue missing from the decoy)
                 if name[0] != 'H':
+                    if key not in residue_xyz.keys():
+                        residue_xyz[key] = []
+                        residue_name[key] = []
                     residue_xyz[key].append([x, y, z])
                     residue_name[key].append(name)
 
